@@ -277,6 +277,10 @@ def to_str(ex, st, v):
             yield st1, SV("str", f(w.t))
         elif isinstance(w, ExcVal):
             yield st1, SV("str", z3.String(fresh_name("excmsg")))
+        elif isinstance(st1.deref(w), PList) and not st1.deref(w).items:
+            yield st1, "[]"
+        elif isinstance(w, tuple) and not w:
+            yield st1, "()"
         elif isinstance(w, SSeq):
             # rendering of a list of unknown length: some text, a function of the list
             f = ex.uf("str_seq", z3.IntSort(), w.arr.sort(), z3.StringSort())
